@@ -1,14 +1,16 @@
 """C11 — HPACK / Huffman decoding agrees with RFC 7541 on every input, however split."""
-from .. import core, tables
+from .. import core, tables, hpackrules
 
 EXHAUSTIVE = True
 EXPLANATION = (
     "R1 is exhaustive: every one of the 3840 entries of the Huffman DECODE_TABLE (read from the compiler's const-eval "
     "allocation) equals the 8-bit-stride trie computed from the RFC 7541 Appendix B code (independent reference data), "
-    "including the invalid marker for EOS and all branch indices in range. R3 compares every arm of get_static with "
-    "Appendix A. R2/R4/R5/R6 decide structural necessary conditions of the padding rule, the integer / size-update "
-    "limits, resumable consumption and dynamic-table accounting. Agreement of the decoded field list with the RFC for "
-    "every byte string is NOT decided."
+    "including the invalid marker for EOS and all branch indices in range. R2: the padding / EOS rule is present "
+    "(Ok only with no half-decoded symbol, all-ones tail). R3: every arm of get_static equals Appendix A; Table::get "
+    "rejects 0 and out-of-range indices. R4: Representation::load agrees with section 6 on all 256 first bytes, the "
+    "varint loop is limited to 5 octets, size updates only at the start of a block and within the allowance (sibling "
+    "field arms agree). R5: only fully decoded fields are consumed (resumability). R6: dynamic-table accounting is paired. "
+    "Agreement of the decoded field list with the RFC for every byte string is NOT decided."
 )
 NOT_DECIDED = "that the produced field list equals the RFC's for every byte string; whole == piecewise decoding as values; the numeric table-size bound"
 
@@ -19,3 +21,11 @@ def run(ctx):
     tables.huffman_decode_rule(r, F)
     r = ctx.rule('C11.R3', 'TABLE', 'get_static = RFC 7541 Appendix A; Table::get rejects index 0 and out-of-range indices')
     tables.static_table_rules(r, F, which=('get',))
+    r = ctx.rule('C11.R4', 'GUARD', 'representation classes (256 bytes, exhaustive), integer and size-update limits, Huffman padding rule')
+    hpackrules.representation_table(r, F)
+    hpackrules.decoder_prefixes(r, F)
+    hpackrules.decoder_limits(r, F)
+    r = ctx.rule('C11.R5', 'PASS', 'resumability: only fully decoded fields are consumed')
+    hpackrules.resumability(r, F)
+    r = ctx.rule('C11.R6', 'PAIR', 'decoder dynamic-table accounting is paired')
+    hpackrules.table_accounting(r, F)
